@@ -4,7 +4,7 @@ from pyvc import spec as SP
 from pyvc.sym import Sym
 
 META = {
-    "explanation": "_formula_to_format is proved modularly (over the contracts of _formula_to_parts, _get_leading_integer and _get_charge, each proved in C01): prefix images from the table, every hydrate part rendered with counts wrapped by the format's subscript, the infix image between parts, the hydrate multiplier printed iff it differs from 1, the charge token 'magnitude then sign with 1 omitted' wrapped by the superscript, suffixes verbatim - for every charge and multiplier; the greek/radical/hydrate/sub/superscript tables are data obligations against Unicode code points; Species.from_formula's phase index for list and dict phases; the printers pick latex_name/unicode_name/html_name (falling back to the key) and lay reactions out as in C12; printed reactions are read back term by term (data obligations): stored order, coefficient omitted iff it equals 1 (any numeric type) and otherwise a text that reads back as the stored number, inactive groups, Species with phase suffixes, one accepted arrow of the class",
+    "explanation": "_formula_to_format is proved modularly (over the contracts of _formula_to_parts, _get_leading_integer and _get_charge, each proved in C01): prefix images from the table, every hydrate part rendered with counts wrapped by the format's subscript, the infix image between parts, the hydrate multiplier printed iff it differs from 1, the charge token 'magnitude then sign with 1 omitted' wrapped by the superscript, suffixes verbatim - for every charge and multiplier (the helpers are found by name or, when renamed, by what they compute; when the code does not ask one of them the same clause is decided end to end on a formula of the grammar with enumerated multipliers and charges as written); greek prefixes, radical dot, hydrate separator, sub- and superscript digits are data obligations on the renderings against Unicode code points, the private tables being read one by one as an aid; Species.from_formula's phase index for list and dict phases; the printers pick latex_name/unicode_name/html_name (falling back to the key) and lay reactions out as in C12; printed reactions are read back term by term (data obligations): stored order, coefficient omitted iff it equals 1 (any numeric type) and otherwise a text that reads back as the stored number, inactive groups, Species with phase suffixes, one accepted arrow of the class",
     "trusted_base": ["A9: re.sub on concrete count patterns (run natively on the concrete hydrate parts)", "Unicode code points typed into this file", "presentation symbols the statement does not spell out, typed into this file: \\varepsilon and o for epsilon/omicron, '^\\bullet ', '\\cdot ', &sdot;, the accepted arrows per class and format (_ARROWS), the bracketed group ' + ( ... )' for inactive species (the notation C12's parser reads)"],
     "not_decided": ["global injectivity of the regex substitution on arbitrary strings: bounded invertibility stand-in over generated formulas"],
     "assumptions": ["stoichiometry texts are concrete per harness; charge and hydrate multiplier symbolic"],
@@ -12,11 +12,38 @@ META = {
 PA = "chempy.util.parsing"
 
 
+def _helper(parsing, name, arity, role):
+    """a private helper of chempy.util.parsing: by its name or - when it was renamed - by its ROLE, i.e. the one function defined in that module with `arity`
+    required arguments that computes what `role` checks on hand-written cases.  None when there is none (inlined, split up): the harness then does without
+    the helper's contract and decides the clause end to end"""
+    import inspect
+    f = getattr(parsing, name, None)
+    if inspect.isfunction(f):
+        return f
+    hits = []
+    for g in list(vars(parsing).values()):
+        try:
+            required = [p for p in inspect.signature(g).parameters.values() if p.default is p.empty and p.kind in (p.POSITIONAL_ONLY, p.POSITIONAL_OR_KEYWORD)]
+            if inspect.isfunction(g) and g.__module__ == parsing.__name__ and len(required) == arity and role(g):
+                hits.append(g)
+        except Exception:   # not a function of this role
+            pass
+    return hits[0] if len(hits) == 1 else None
+
+
+# the roles, on hand-written cases of the contracts C01 proves for the three helpers
+_ROLE_PARTS = lambda f: [tuple(x) if isinstance(x, (list, tuple)) else x for x in f("alpha-Fe+3(aq)", ("alpha-",), ("(aq)",))] == ["Fe", "+3", ("alpha-",), ("(aq)",)]
+_ROLE_LEADING = lambda f: tuple(f("12H2O")) == (12, "H2O") and tuple(f("H2O")) == (1, "H2O")
+_ROLE_CHARGE = lambda f: (f("+"), f("-2"), f("+12")) == (1, -2, 12)
+
+
 def _fmt_harness(fmt, custom=False):
     """clause 'every count becomes a subscript, the charge a superscript magnitude-then-sign with 1 omitted, separators / radical dots / greek prefixes map
     to their symbols, suffixes verbatim', modularly over _formula_to_parts, _get_leading_integer and _get_charge.  custom=True: the same layout when the
-    caller gives his own prefixes=, infixes= and suffixes= (the optional arguments must reach the helpers and the images must come from the GIVEN tables)"""
-    @harness("C13", ("format_structure_own_tables." if custom else "format_structure.") + fmt, functions=[PA + ":_formula_to_format", PA + ":formula_to_" + fmt], kind="shape-bounded", samples=0, max_paths=400)
+    caller gives his own prefixes=, infixes= and suffixes= (the optional arguments must reach the helpers and the images must come from the GIVEN tables).
+    The helper contracts are a proof aid: when the code does not ask one of the helpers (inlined, replaced) the same clause is decided end to end on a
+    formula of the grammar with enumerated multipliers and charges as they are written (second part of the harness)"""
+    @harness("C13", ("format_structure_own_tables." if custom else "format_structure.") + fmt, functions=[PA + ":_formula_to_format", PA + ":formula_to_" + fmt], kind="shape-bounded", samples=0, max_paths=1000)
     def _(v):
         import z3
         from chempy.util import parsing
@@ -30,44 +57,98 @@ def _fmt_harness(fmt, custom=False):
         v.assume(SP.neg(chg == 0))
         seen = {"parts": [], "leading": [], "charge": [], "has_charge": []}
         own_prefixes, own_infixes, own_suffixes = {"iso-": "<ISO>-", "n-": "<N>-"}, {"..": "<DOT>"}, ("(ads)",)
-        out_prefixes, out_suffix = (("iso-",), "(ads)") if custom else ((".", "alpha-"), "(s)")
+        out_suffix = "(ads)" if custom else "(s)"
+        # what the stand-in of _formula_to_parts hands out.  First part: the placeholders "X" / "+tok", which only the contracts of _get_leading_integer /
+        # _get_charge can turn into the symbolic multiplier / charge.  Second part: the multiplier and the charge as they are written in the formula
+        hand = {"lead": "X", "tok": "+tok", "prefixes": ("iso-",) if custom else (".", "alpha-")}
 
+        # the stand-ins take their arguments under the names (and in the order) of the helpers they stand for, so that a call by keyword is served too
         def parts_stub(v_, formula, prefixes, suffixes):
             seen["parts"].append((formula, sorted(prefixes), sorted(suffixes)))
             with_charge = bool(v_.path.branch(has_chg.e))
             seen["has_charge"].append(with_charge)
-            return ["Na2CO3..XH2.5O", ("+tok" if with_charge else None), out_prefixes, (out_suffix,)]
-        v.contract(parsing._formula_to_parts, "_formula_to_parts", None, parts_stub)
-        v.contract(parsing._get_leading_integer, "_get_leading_integer", None, lambda v_, s: (seen["leading"].append(s), (m, "H2.5O"))[1])
-        v.contract(parsing._get_charge, "_get_charge", None, lambda v_, tok: (seen["charge"].append(tok), chg)[1])
+            return ["Na2CO3.." + hand["lead"] + "H2.5O", (hand["tok"] if with_charge else None), hand["prefixes"], (out_suffix,)]
+
+        def leading_stub(v_, s):
+            seen["leading"].append(s)
+            if s == "XH2.5O":
+                return (m, "H2.5O")
+            digits = s[:len(s) - len(s.lstrip("0123456789"))]   # C01's contract on a written text: the leading run of digits, 1 when there is none
+            return (int(digits) if digits else 1, s[len(digits):])
+
+        def charge_stub(v_, chgstr):
+            seen["charge"].append(chgstr)
+            if chgstr == "+tok":
+                return chg
+            return (1 if chgstr[:1] == "+" else -1) * int(chgstr[1:] or 1)   # C01's contract on a written token: sign, then the magnitude (1 when omitted)
+        for name, arity, role, stand_in in (("_formula_to_parts", 3, _ROLE_PARTS, parts_stub), ("_get_leading_integer", 1, _ROLE_LEADING, leading_stub), ("_get_charge", 1, _ROLE_CHARGE, charge_stub)):
+            helper = _helper(parsing, name, arity, role)
+            if helper is not None:
+                v.contract(helper, name, None, stand_in)
         given = "the{formula}as_given" if fmt == "latex" else "the_formula_as_given"
-        r = v.call(fn, given, prefixes=own_prefixes, infixes=own_infixes, suffixes=own_suffixes) if custom else v.call(fn, given)
+        kwargs = dict(prefixes=own_prefixes, infixes=own_infixes, suffixes=own_suffixes) if custom else {}
+        out = v.run(fn, given, **kwargs)
+        with_charge = bool(seen["has_charge"]) and seen["has_charge"][0]
+        modular = bool(seen["parts"]) and bool(seen["leading"]) and (bool(seen["charge"]) or not with_charge)
         # side condition of the modular proof - what the helpers receive: the formula as given (LaTeX: with its braces escaped), the prefixes of THIS
         # format's table (or of the caller's) and the suffixes in force; only the part after the hydrate separator may carry a multiplier; the charge token
-        # goes to _get_charge exactly when there is one.  Not part of the property, hence not demanded: how often a helper is asked (at least once, every
-        # time with the right argument) and in which order the prefixes / suffixes are listed (what the order of the prefixes must achieve is stated end
-        # to end in multi_digit_charges_and_counts.greek_prefix_then_radical_dot)
-        table = own_prefixes if custom else {"latex": parsing._latex_mapping, "unicode": parsing._unicode_mapping, "html": parsing._html_mapping}[fmt]
-        want_formula = given.replace("{", "\\{").replace("}", "\\}") if fmt == "latex" else given
-        want_parts = (want_formula, sorted(table.keys()), sorted(own_suffixes if custom else ("(s)", "(l)", "(g)", "(aq)")))
-        with_charge = bool(seen["has_charge"]) and seen["has_charge"][0]
-        v.prove("helpers_get_the_right_arguments", len(seen["parts"]) >= 1 and all(p == want_parts for p in seen["parts"]) and len(seen["leading"]) >= 1 and all(x == "XH2.5O" for x in seen["leading"])
-                and ((len(seen["charge"]) >= 1 and all(x == "+tok" for x in seen["charge"])) if with_charge else seen["charge"] == []), detail=repr(seen))
+        # goes to _get_charge exactly when there is one.  Not part of the property, hence not demanded: how often a helper is asked (every time with the
+        # right argument) and in which order the prefixes / suffixes are listed (what the order of the prefixes must achieve is stated end to end in
+        # multi_digit_charges_and_counts.greek_prefix_then_radical_dot); THAT a helper is asked is not demanded either - a helper that is not asked sends
+        # the harness to its second part
+        table = own_prefixes if custom else getattr(parsing, "_%s_mapping" % fmt, None)   # the format's own table is read as an aid: when it is not there under this name, the prefixes handed on are not compared
+        escaped = lambda f: f.replace("{", "\\{").replace("}", "\\}") if fmt == "latex" else f
+        want_parts = lambda f: (escaped(f), sorted(table.keys()) if hasattr(table, "keys") else None, sorted(own_suffixes if custom else ("(s)", "(l)", "(g)", "(aq)")))
+        parts_ok = lambda f: all(all(w is None or g == w for g, w in zip(p, want_parts(f))) for p in seen["parts"])
         sub = {"latex": lambda x: "_{%s}" % x, "html": lambda x: "<sub>%s</sub>" % x, "unicode": lambda x: "".join("₀₁₂₃₄₅₆₇₈₉"[int(c)] if c != "." else "." for c in x)}[fmt]
-        pre = "<ISO>-" if custom else {"latex": "^\\bullet \\alpha-", "html": "&sdot;&alpha;-", "unicode": "⋅α-"}[fmt]
+        image = {".": {"latex": "^\\bullet ", "html": "&sdot;", "unicode": "⋅"}[fmt], "alpha-": {"latex": "\\alpha-", "html": "&alpha;-", "unicode": "α-"}[fmt], "iso-": "<ISO>-"}
         infix = "<DOT>" if custom else {"latex": "\\cdot ", "html": "&sdot;", "unicode": "·"}[fmt]
         body0 = "Na" + sub("2") + "CO" + sub("3")
         body1 = "H" + sub("2.5") + "O"
-        mtxt = z3.If(m.e == 1, z3.StringVal(""), z3.IntToStr(m.e))
-        if fmt == "unicode":
-            sups = "⁰¹²³⁴⁵⁶⁷⁸⁹"
-            tok = z3.StringVal(("" if abs(chg) == 1 else "".join(sups[int(c)] for c in str(abs(chg)))) + ("⁻" if chg < 0 else "⁺"))
-        else:
-            absn = z3.If(chg.e < 0, -chg.e, chg.e)
-            inner = z3.Concat(z3.If(absn == 1, z3.StringVal(""), z3.IntToStr(absn)), z3.If(chg.e < 0, z3.StringVal("-"), z3.StringVal("+")))
-            tok = z3.Concat(z3.StringVal("^{" if fmt == "latex" else "<sup>"), inner, z3.StringVal("}" if fmt == "latex" else "</sup>"))
-        expected = z3.Concat(z3.StringVal(pre + body0 + infix), mtxt, z3.StringVal(body1), z3.If(has_chg.e, tok, z3.StringVal("")), z3.StringVal(out_suffix))
-        v.prove("layout", r == Sym(expected))
+        sups = "⁰¹²³⁴⁵⁶⁷⁸⁹"
+        if modular:
+            if out.exc is not None:
+                raise out.exc
+            r = out.value
+            v.prove("helpers_get_the_right_arguments", parts_ok(given) and all(x == "XH2.5O" for x in seen["leading"])
+                    and (all(x == "+tok" for x in seen["charge"]) if with_charge else seen["charge"] == []), detail=repr(seen))
+            pre = "".join(image[k] for k in hand["prefixes"])
+            mtxt = z3.If(m.e == 1, z3.StringVal(""), z3.IntToStr(m.e))
+            if fmt == "unicode":
+                tok = z3.StringVal(("" if abs(chg) == 1 else "".join(sups[int(c)] for c in str(abs(chg)))) + ("⁻" if chg < 0 else "⁺"))
+            else:
+                absn = z3.If(chg.e < 0, -chg.e, chg.e)
+                inner = z3.Concat(z3.If(absn == 1, z3.StringVal(""), z3.IntToStr(absn)), z3.If(chg.e < 0, z3.StringVal("-"), z3.StringVal("+")))
+                tok = z3.Concat(z3.StringVal("^{" if fmt == "latex" else "<sup>"), inner, z3.StringVal("}" if fmt == "latex" else "</sup>"))
+            expected = z3.Concat(z3.StringVal(pre + body0 + infix), mtxt, z3.StringVal(body1), z3.If(has_chg.e, tok, z3.StringVal("")), z3.StringVal(out_suffix))
+            v.prove("layout", r == Sym(expected))
+            return
+        # second part - the code left the modular path (it does not ask one of the helpers, so the placeholders mean nothing to it and the result of the
+        # first call says nothing): the same clause end to end on a formula of the C01 grammar, greek prefix then radical dot (the order the grammar writes
+        # them in) / the caller's own prefix, the hydrate multiplier as it is written (none, 1, one digit, two digits) and the charge as it is written
+        # (sign alone or sign and magnitude; magnitudes 1, one digit, two digits; both signs).  A helper that IS asked answers by its C01 contract and must
+        # still be asked with the right argument
+        if not seen["has_charge"]:
+            with_charge = bool(v.path.branch(has_chg.e))
+        lead = v.choice("hydrate_multiplier_as_written", ["", "1", "2", "7", "10", "12", "99"])
+        c, written = None, ""
+        if with_charge:
+            c = chg if isinstance(chg, int) else v.choice("charge_enumerated", [-12, -3, -2, -1, 1, 2, 3, 10])
+            bare = abs(c) == 1 and v.choice("unit_charge_written_as_the_sign_alone", [True, False])
+            written = ("+" if c > 0 else "-") + ("" if bare else str(abs(c)))
+        hand.update(lead=lead, tok=written, prefixes=("iso-",) if custom else ("alpha-", "."))
+        for k in seen:
+            del seen[k][:]
+        given = "".join(hand["prefixes"]) + "Na2CO3.." + lead + "H2.5O" + written + out_suffix
+        r = v.call(fn, given, **kwargs)
+        v.prove("helpers_get_the_right_arguments", parts_ok(given) and all(x == lead + "H2.5O" for x in seen["leading"])
+                and (all(x == written for x in seen["charge"]) if with_charge else seen["charge"] == []), detail="second part (a helper is not asked) " + repr(seen))
+        tok = ""
+        if with_charge:
+            inner = ("" if abs(c) == 1 else str(abs(c))) + ("-" if c < 0 else "+")
+            tok = {"latex": "^{%s}" % inner, "html": "<sup>%s</sup>" % inner, "unicode": "".join(sups[int(x)] if x.isdigit() else {"+": "⁺", "-": "⁻"}[x] for x in inner)}[fmt]
+        expected = "".join(image[k] for k in hand["prefixes"]) + body0 + infix + ("" if lead in ("", "1") else lead) + body1 + tok + out_suffix
+        v.prove("layout", r == Sym(z3.StringVal(expected)), detail="second part (a helper is not asked): %r expected for %r" % (expected, given))
     return _
 
 
@@ -78,39 +159,70 @@ for _f in ("latex", "unicode", "html"):
 
 @harness("C13", "tables", functions=[PA + ":<module tables>"], kind="data")
 def _(v):
-    """clause 'radical dots, hydrate separators and greek prefixes map to their symbols': each of the 24 greek names, the radical dot and the hydrate
-    separator has the stated image in each format's table (per key: a table may hold more, but nothing that could be cut off the front of a formula of the
-    C01 grammar), and the images are pairwise distinct (needed by the inverse clause)"""
+    """clause 'every count becomes a subscript, the charge a superscript, radical dots, hydrate separators and greek prefixes map to their symbols': each
+    of the 24 greek names, the radical dot, the hydrate separator and every digit / sign is SHOWN as the stated symbol by the three renderings (end to
+    end, on the public functions); the private tables of the module are read one by one as an aid - a table that is there (as a mapping from texts to
+    texts) must hold the stated image under each key (it may hold more, but nothing that could be cut off the front of a formula of the C01 grammar, and
+    the images are pairwise distinct, needed by the inverse clause); a table that is not there, or is of another shape, is not consulted"""
     from chempy.util import parsing as P
     greek = "alpha beta gamma delta epsilon zeta eta theta iota kappa lambda mu nu xi omicron pi rho sigma tau upsilon phi chi psi omega".split()
     uni = [chr(c) for c in list(range(0x3B1, 0x3C2)) + list(range(0x3C3, 0x3CA))]   # α..ρ, σ..ω (final sigma skipped)
-    try:
-        tabs = {"latex": dict(P._latex_mapping), "unicode": dict(P._unicode_mapping), "html": dict(P._html_mapping)}
-        infixes = {"latex": dict(P._latex_infix_mapping), "unicode": dict(P._unicode_infix_mapping), "html": dict(P._html_infix_mapping)}
-        usub, usup = dict(P._unicode_sub), dict(P._unicode_sup)
-    except Exception as e:
-        v.prove("24_greek_letters", False, detail="the tables cannot be read: %r" % (e,))
-        return
+    formats = ("latex", "unicode", "html")
+
+    def aid(name):
+        """the private table `name` as a dict from texts to texts; None when there is no such table (renamed, replaced by something of another shape)"""
+        try:
+            t = dict(getattr(P, name))
+        except Exception:
+            return None
+        return t if t and all(isinstance(k, str) and isinstance(x, str) for k, x in t.items()) else None
+
+    def shown(fmt, formula):
+        """what the public function of the format shows for the formula (an exception of the code under test: a text that equals no expected value)"""
+        try:
+            return getattr(P, "formula_to_" + fmt)(formula)
+        except Exception as e:
+            return "raised %r" % (e,)
+    tabs = {f: aid("_%s_mapping" % f) for f in formats}
+    infixes = {f: aid("_%s_infix_mapping" % f) for f in formats}
+    usub, usup = aid("_unicode_sub"), aid("_unicode_sup")
     listed = [g + "-" for g in greek] + ["."]
-    v.prove("24_greek_letters", len(set(greek)) == 24 and len(set(uni)) == 24 and all(k in t for t in tabs.values() for k in listed), detail=repr([(f, k) for f, t in tabs.items() for k in listed if k not in t][:5]))
-    v.prove("unicode_greek", all(tabs["unicode"].get(g + "-") == u + "-" for g, u in zip(greek, uni)))
-    exp_latex = {g + "-": "\\" + g + "-" for g in greek}
-    exp_latex["epsilon-"] = "\\varepsilon-"
-    exp_latex["omicron-"] = "o-"
-    v.prove("latex_greek", all(tabs["latex"].get(k) == x for k, x in exp_latex.items()))
-    v.prove("html_greek", all(tabs["html"].get(g + "-") == "&" + g + ";-" for g in greek))
-    v.prove("radical_dot", tabs["latex"].get(".") == "^\\bullet " and tabs["unicode"].get(".") == "⋅" and tabs["html"].get(".") == "&sdot;")
-    v.prove("hydrate_infix", infixes["latex"].get("..") == "\\cdot " and infixes["unicode"].get("..") == "·" and infixes["html"].get("..") == "&sdot;")
+    # the images the statement and the trusted base give, written here
+    images = {"latex": {g + "-": "\\" + g + "-" for g in greek}, "unicode": {g + "-": u + "-" for g, u in zip(greek, uni)}, "html": {g + "-": "&" + g + ";-" for g in greek}}
+    images["latex"]["epsilon-"] = "\\varepsilon-"
+    images["latex"]["omicron-"] = "o-"
+    images["latex"]["."], images["unicode"]["."], images["html"]["."] = "^\\bullet ", "⋅", "&sdot;"
+    hydrate = {"latex": "\\cdot ", "unicode": "·", "html": "&sdot;"}
+    # end to end: prefix + 'Fe' is shown as image + 'Fe'
+    wrong = {f: [(k, shown(f, k + "Fe")) for k in listed if shown(f, k + "Fe") != images[f][k] + "Fe"] for f in formats}
+    in_table = lambda f, keys: tabs[f] is None or all(tabs[f].get(k) == images[f][k] for k in keys)
+    v.prove("24_greek_letters", len(set(greek)) == 24 and len(set(uni)) == 24 and all((all(k in tabs[f] for k in listed) if tabs[f] is not None else not wrong[f]) for f in formats),
+            detail=repr([(f, k) for f in formats if tabs[f] is not None for k in listed if k not in tabs[f]][:5]) + " " + repr({f: w[:3] for f, w in wrong.items() if tabs[f] is None}))
+    for f in formats:
+        v.prove(f + "_greek", not [w for w in wrong[f] if w[0] != "."] and in_table(f, listed[:24]), detail=repr(wrong[f][:3]))
+    v.prove("radical_dot", not any(w[0] == "." for f in formats for w in wrong[f]) and all(in_table(f, ["."]) for f in formats), detail=repr(wrong))
+    hydrate_shown = {f: shown(f, "Na2CO3..7H2O") for f in formats}
+    hydrate_parts = {"latex": ("Na_{2}CO_{3}", "7H_{2}O"), "unicode": ("Na₂CO₃", "7H₂O"), "html": ("Na<sub>2</sub>CO<sub>3</sub>", "7H<sub>2</sub>O")}
+    v.prove("hydrate_infix", all(hydrate_shown[f] == hydrate_parts[f][0] + hydrate[f] + hydrate_parts[f][1] and (infixes[f] is None or infixes[f].get("..") == hydrate[f]) for f in formats), detail=repr(hydrate_shown))
     # (was: exactly 25 entries)  the 25 listed keys have 25 different images, and whatever else a table holds cannot be taken off the front of a formula:
     # a formula body begins with an element symbol (upper case), a bracket or is the electron 'e-', so a further prefix must begin with a lower case letter
-    # or a sign that is none of these and must not be (the beginning of) 'e-'
+    # or a sign that is none of these and must not be (the beginning of) 'e-'.  What ELSE a rendering takes off the front of a formula can only be read in
+    # its table: when one of the three tables is not there this obligation is not generated (reported as undecided by the engine, not as a violation)
     harmless = lambda k: isinstance(k, str) and k != "" and not k[0].isupper() and not k[0].isdigit() and k[0] not in "([{+-" and not "e-".startswith(k)
-    extra = {f: [k for k in t if k not in listed and not harmless(k)] for f, t in tabs.items()}
-    v.prove("table_sizes", all(len(set(t.get(k) for k in listed)) == 25 for t in tabs.values()) and not any(extra.values()), detail=repr(extra))
+    if all(t is not None for t in tabs.values()):
+        extra = {f: [k for k in t if k not in listed and not harmless(k)] for f, t in tabs.items()}
+        v.prove("table_sizes", all(len(set(t.get(k) for k in listed)) == 25 for t in tabs.values()) and not any(extra.values()), detail=repr(extra))
+    # 'every count becomes a subscript' / 'the charge becomes a superscript written magnitude-then-sign': every digit, the decimal point of a count and both
+    # signs, end to end on whole formulas (code points typed here)
     subs = [chr(0x2080 + i) for i in range(10)]
     sups = ["⁰", "¹", "²", "³"] + [chr(0x2070 + i) for i in range(4, 10)]
-    v.prove("subscript_digits", all(usub.get(str(i)) == subs[i] for i in range(10)) and usub.get(".") == ".")
-    v.prove("superscript_digits_and_signs", all(usup.get(str(i)) == sups[i] for i in range(10)) and usup.get("+") == "⁺" and usup.get("-") == "⁻")
+    count_shown = shown("unicode", "C1234567890.5")
+    v.prove("subscript_digits", count_shown == "C" + "".join(subs[int(c)] for c in "1234567890") + "." + subs[5] and (usub is None or (all(usub.get(str(i)) == subs[i] for i in range(10)) and usub.get(".") == ".")),
+            detail="C1234567890.5 shown as %r" % (count_shown,))
+    charges_shown = (shown("unicode", "Fe+1234567890"), shown("unicode", "Fe-1234567890"))
+    magnitude = "".join(sups[int(c)] for c in "1234567890")
+    v.prove("superscript_digits_and_signs", charges_shown == ("Fe" + magnitude + "⁺", "Fe" + magnitude + "⁻")
+            and (usup is None or (all(usup.get(str(i)) == sups[i] for i in range(10)) and usup.get("+") == "⁺" and usup.get("-") == "⁻")), detail="Fe+1234567890, Fe-1234567890 shown as %r" % (charges_shown,))
 
 
 def _safely(v, name, thunk, expected):
